@@ -42,6 +42,7 @@ std::pair<bool, ticket_type> internal_try_pop_impl(void* dst, QueueRep& queue, A
             // Queue had item with ticket k when we looked.  Attempt to get that item.
             // Another thread snatched the item, retry.
         } while (!queue.head_counter.compare_exchange_strong(ticket, ticket + 1));
+            __TBB_VERIF_POINT(vp_cq_pop_ticket, &queue, 0);
     } while (!queue.choose(ticket).pop(dst, ticket, queue, alloc));
     return { true, ticket };
 }
@@ -243,6 +244,7 @@ private:
     template <typename... Args>
     void internal_push( Args&&... args ) {
         ticket_type k = my_queue_representation->tail_counter++;
+        __TBB_VERIF_POINT(vp_cq_ticket_taken, this, 0);
         my_queue_representation->choose(k).push(k, *my_queue_representation, my_allocator, std::forward<Args>(args)...);
     }
 
@@ -557,6 +559,7 @@ private:
     void internal_push( Args&&... args ) {
         unsigned old_abort_counter = my_abort_counter.load(std::memory_order_relaxed);
         ticket_type ticket = my_queue_representation->tail_counter++;
+        __TBB_VERIF_POINT(vp_cq_ticket_taken, this, 1);
         std::ptrdiff_t target = ticket - my_capacity;
 
         if (static_cast<std::ptrdiff_t>(my_queue_representation->head_counter.load(std::memory_order_relaxed)) <= target) { // queue is full
@@ -569,6 +572,7 @@ private:
             };
 
             try_call( [&] {
+                __TBB_VERIF_POINT(vp_cbq_wait, this, 1);
                 internal_wait(my_monitors, cbq_slots_avail_tag, target, pred);
             }).on_exception( [&] {
                 my_queue_representation->choose(ticket).abort_push(ticket, *my_queue_representation, my_allocator);
@@ -577,6 +581,7 @@ private:
         }
         __TBB_ASSERT((static_cast<std::ptrdiff_t>(my_queue_representation->head_counter.load(std::memory_order_relaxed)) > target), nullptr);
         my_queue_representation->choose(ticket).push(ticket, *my_queue_representation, my_allocator, std::forward<Args>(args)...);
+        __TBB_VERIF_POINT(vp_cbq_notify, this, 0);
         r1::notify_bounded_queue_monitor(my_monitors, cbq_items_avail_tag, ticket);
     }
 
@@ -591,6 +596,7 @@ private:
             // Queue had empty slot with ticket k when we looked. Attempt to claim that slot.
             // Another thread claimed the slot, so retry.
         } while (!my_queue_representation->tail_counter.compare_exchange_strong(ticket, ticket + 1));
+        __TBB_VERIF_POINT(vp_cq_ticket_taken, this, 2);
 
         my_queue_representation->choose(ticket).push(ticket, *my_queue_representation, my_allocator, std::forward<Args>(args)...);
         r1::notify_bounded_queue_monitor(my_monitors, cbq_items_avail_tag, ticket);
@@ -604,6 +610,7 @@ private:
 
         do {
             target = my_queue_representation->head_counter++;
+            __TBB_VERIF_POINT(vp_cq_pop_ticket, this, 1);
             if (static_cast<std::ptrdiff_t>(my_queue_representation->tail_counter.load(std::memory_order_relaxed)) <= target) {
                 auto pred = [&] {
                     if (my_abort_counter.load(std::memory_order_relaxed) != old_abort_counter) {
@@ -614,14 +621,17 @@ private:
                 };
 
                 try_call( [&] {
+                    __TBB_VERIF_POINT(vp_cbq_wait, this, 0);
                     internal_wait(my_monitors, cbq_items_avail_tag, target, pred);
                 }).on_exception( [&] {
+                    __TBB_VERIF_POINT(vp_cbq_abort, this, 1);
                     my_queue_representation->head_counter--;
                 });
             }
             __TBB_ASSERT(static_cast<std::ptrdiff_t>(my_queue_representation->tail_counter.load(std::memory_order_relaxed)) > target, nullptr);
         } while (!my_queue_representation->choose(target).pop(dst, target, *my_queue_representation, my_allocator));
 
+        __TBB_VERIF_POINT(vp_cbq_notify, this, 1);
         r1::notify_bounded_queue_monitor(my_monitors, cbq_slots_avail_tag, target);
     }
 
@@ -638,6 +648,7 @@ private:
 
     void internal_abort() {
         ++my_abort_counter;
+        __TBB_VERIF_POINT(vp_cbq_abort, this, 0);
         r1::abort_bounded_queue_monitors(my_monitors);
     }
 
